@@ -1,0 +1,23 @@
+//go:build verif
+
+package auth
+
+import "time"
+
+// Accessors for the model-based verification harness (build tag "verif" only).
+
+// VerifPeek looks a session up without extending it.
+func VerifPeek(sid string) (expiresAt time.Time, ok bool) {
+	sess, ok := sessionStore.Get(sid)
+	if !ok {
+		return time.Time{}, false
+	}
+	return sess.ExpiresAt, true
+}
+
+// VerifSetExpiry moves a session's expiry (as the passing of time would).
+func VerifSetExpiry(sid string, t time.Time) {
+	if sess, ok := sessionStore.Get(sid); ok {
+		sess.ExpiresAt = t
+	}
+}
